@@ -209,3 +209,105 @@ async def run_case(window, pktsize, ops, direction):
         wire.cut_link()
         await memwire.settle(4)
     return obs
+
+
+# ---------------------------------------------------------------------------------------------------
+# several channels on one connection (server channels send, client sessions receive), manual wire
+
+def decode_meta_chan(meta):
+    """like decode_meta but also returns the recipient channel number: (chan, packet) or None"""
+    d = decode_meta(meta)
+    if d is None:
+        return None
+    return struct.unpack('>I', meta[1][:4])[0], d
+
+
+async def open_multi(windows, pktsizes):
+    import asyncssh
+    srv_sessions = []
+
+    class Srv(asyncssh.SSHServer):
+        def begin_auth(self, username):
+            return False
+
+        def session_requested(self):
+            s = Rec()
+            srv_sessions.append(s)
+            return s
+
+    tun, wire, acc, conn = await memwire.connected_pair(Srv, srv_kw={'encoding': None})
+    csess = []
+    for w, p in zip(windows, pktsizes):
+        ch, s = await conn.create_session(Rec, encoding=None, window=w, max_pktsize=p)
+        csess.append(s)
+    await memwire.settle()
+    taps = {'c': [], 's': []}
+    memwire.tap(wire.cconn, taps['c'], wire, 'c')
+    memwire.tap(wire.sconn, taps['s'], wire, 's')
+    wire.auto = False
+    return dict(wire=wire, conn=conn, snd=[s.chan for s in srv_sessions], rsess=csess, rcv=[s.chan for s in csess], taps=taps)
+
+
+def mqueued(wire, side, adjust_only=False):
+    out = []
+    for m in wire.meta[side]:
+        d = decode_meta_chan(m)
+        if d is not None and (not adjust_only or d[1][0] == 'A'):
+            out.append(d)
+    return out
+
+
+async def run_multi(windows, pktsizes, mops):
+    """mops: ('M', i, op) | ('F',) | ('B',) ; op as in apply_op without F/B/X. Returns observations."""
+    import asyncssh
+    P = await open_multi(windows, pktsizes)
+    wire = P['wire']
+    obs = []
+    try:
+        for m in mops:
+            try:
+                if m[0] == 'M':
+                    i, op = m[1], m[2]
+                    k = op[0]
+                    if k == 'W':
+                        P['snd'][i].write(op[2], datatype=(None if op[1] == 0 else op[1]))
+                    elif k == 'E':
+                        P['snd'][i].write_eof()
+                    elif k == 'C':
+                        P['snd'][i].close()
+                    elif k == 'P':
+                        P['rcv'][i].pause_reading()
+                    elif k == 'R' and op[1] != 0:
+                        P['rsess'][i].pause_after = op[1]
+                        P['rcv'][i].resume_reading()
+                        P['rsess'][i].pause_after = None
+                elif m[0] == 'F':
+                    while wire.pending('s'):
+                        d = decode_meta(wire.meta['s'][0])
+                        wire.deliver('s', 1)
+                        await memwire.settle(4)
+                        if d is not None:
+                            break
+                else:
+                    while wire.pending('c'):
+                        d = decode_meta(wire.meta['c'][0])
+                        wire.deliver('c', 1)
+                        await memwire.settle(4)
+                        if d is not None and d[0] == 'A':
+                            break
+            except (OSError, asyncssh.Error):
+                pass
+            await memwire.settle(6)
+            err = wire.lost['c'] or wire.lost['s'] or wire.tr['c'].closed or wire.tr['s'].closed
+            obs.append(([list(s.toks) for s in P['rsess']], mqueued(wire, 's'), mqueued(wire, 'c', True), bool(err)))
+            if err:
+                break
+    finally:
+        wire.auto = True
+        try:
+            P['conn'].abort()
+        except Exception:
+            pass
+        wire.cut_link()
+        await memwire.settle(4)
+    return obs
